@@ -24,7 +24,7 @@ MUTANTS = [
     {"name": "slot-hash-whole-key", "file": "src/common/utils.rs", "old": "    State::<XMODEM>::calculate(get_hash_tag(key)) as usize % SLOT_NUM", "new": "    State::<XMODEM>::calculate(key) as usize % SLOT_NUM", "expect": "C09.D1"},
     {"name": "hash-tag-empty-body", "file": "src/common/utils.rs", "old": "            if end_offset == 0 {\n                return key;\n            }\n", "new": "", "expect": "C09.D2"},
     {"name": "eval-key-index", "file": "src/proxy/command.rs", "old": "DataCmdType::Eval | DataCmdType::Evalsha => packet.get_array_element(3),", "new": "DataCmdType::Eval | DataCmdType::Evalsha => packet.get_array_element(2),", "expect": "C09.D3"},
-    {"name": "multi-int-guard-dropped", "file": "src/proxy/executor.rs", "old": "            let in_same_slot =\n                same_slot((1..arg_len).filter_map(|i| cmd_ctx.get_cmd().get_command_element(i)));\n            if !in_same_slot {", "new": "            let in_same_slot =\n                same_slot((1..arg_len).filter_map(|i| cmd_ctx.get_cmd().get_command_element(i)));\n            if !in_same_slot && arg_len > 1_000_000 {", "expect": "C09.D4"},
+    {"name": "multi-int-guard-dropped", "file": "src/proxy/executor.rs", "after": "async fn handle_multi_int_cmd(", "old": "            if !in_same_slot {", "new": "            if !in_same_slot && arg_len > 1_000_000 {", "expect": "C09.D4"},
 ]
 
 
